@@ -6,6 +6,8 @@ cd /repo || exit 2
 if [ -n "$(git status --porcelain --untracked-files=no)" ]; then echo "repo not clean" >&2; exit 2; fi
 if ! git apply --check "$P" 2>/tmp/apply.err; then cat /tmp/apply.err; echo "patch does not apply to HEAD" >&2; exit 2; fi
 git apply "$P"
+# (whatever ends this script - also a closed pipe - the working tree of /repo is restored)
+trap 'cd /repo && git checkout -- . 2>/dev/null' EXIT
 git reset -q 2>/dev/null
 cd /verif && ./check "$ID" "$TIER" > /tmp/try_patch.out 2>&1; RC=$?
 grep -E "^(VIOLATION|KNOWN-FINDING|MACHINERY|C[0-9]+ (quick|thorough))" /tmp/try_patch.out | head -${LINES_MAX:-8}
